@@ -96,14 +96,19 @@ def oracle_pmtm(p):
         else:
             if np.any(w < -1e-12) or np.any(w > 1.0 / e[None, :] * (1 + 1e-9)):
                 out.append("adaptive weights leave [0, 1/eigenvalue]")
-            # Thomson's formula at the spectrum the weights define (fixed point up to the loop tolerance)
+            # Thomson's formula evaluated at ONE spectrum per frequency: w_k = lam_k b_k^2 with b_k = S/(lam_k S + sig2 (1-lam_k)).
+            # Recover S from taper 0 and require that the same S reproduces every other taper's weight (no convergence assumed;
+            # the iteration stops on a tolerance, so "the spectrum it converged to" is whatever it last evaluated).
             sig2 = float(np.sum(np.abs(x) ** 2) / N)
-            SkA = np.abs(Sk) ** 2
-            S = np.sum(w.T * SkA, axis=0) / np.sum(w.T, axis=0)
-            b = S[:, None] / (S[:, None] * e[None, :] + sig2 * (1 - e[None, :]))
-            wf = b ** 2 * e[None, :]
-            if np.max(np.abs(wf - w)) > 2e-2 * np.max(np.abs(w)):
-                out.append("adaptive weights are not Thomson's formula at the converged spectrum: max dev %.3e" % np.max(np.abs(wf - w)))
+            a = sig2 * (1 - e)
+            b0 = np.sqrt(np.clip(w[:, 0] / e[0], 0, None))
+            den = 1 - b0 * e[0]
+            ok = den > 1e-9
+            Srec = np.where(ok, b0 * a[0] / np.where(ok, den, 1), np.nan)
+            wf = (Srec[:, None] / (Srec[:, None] * e[None, :] + a[None, :])) ** 2 * e[None, :]
+            dev = np.abs(wf - w)[ok]
+            if dev.size and np.max(dev) > 1e-6 * max(1.0, float(np.max(np.abs(w)))):
+                out.append("adaptive weights are not Thomson's formula at a single spectrum per frequency: max dev %.3e" % np.max(dev))
     # class: mean over tapers of weight*|eigenspectrum|^2, folded for real data, real and non-negative
     P = sp.MultiTapering(p["x"], NW=p["NW"], k=p["k"], NFFT=nfft, method=p["method"], scale_by_freq=False)
     psd = np.asarray(P.psd)
@@ -131,12 +136,33 @@ def oracle_pmtm(p):
     return out
 
 
+def oracle_reuse(p):
+    """the class returns the mean over the tapers of ITS CURRENT configuration: re-using an instance after reassigning NW, k or
+    method must give what a fresh instance with those values gives"""
+    sp = _sp()
+    x = p["x"]
+    out = []
+    o = sp.MultiTapering(x, NW=p["NW"], k=p["k"], NFFT=p["nfft"], method=p["method"], scale_by_freq=False)
+    o()
+    for (attr, val) in p["changes"]:
+        setattr(o, attr, val)
+        o()
+        cur = {a: getattr(o, a) for a in ("NW", "k", "method")}
+        f = sp.MultiTapering(x, NW=cur["NW"], k=cur["k"], NFFT=p["nfft"], method=cur["method"], scale_by_freq=False)
+        a1, a2 = np.asarray(o.psd), np.asarray(f.psd)
+        if a1.shape != a2.shape or rel(a1, a2) > 1e-9:
+            out.append("MultiTapering instance re-used after %s = %r differs from a fresh instance with the same configuration" % (attr, val))
+            break
+    return out
+
+
 def _key(p):
     x = np.asarray(p["x"])
     return "%d|%s|%s|%s|%s|%s|%d" % (len(x), p["NW"], p["k"], p["nfft"], p["method"], np.iscomplexobj(x), hash(x.tobytes()) & 0xFFFFFF)
 
 
 KINDS = {
+    "reuse": {"oracle": oracle_reuse, "key": lambda p: "reuse|%s|%s" % (p["changes"], _key(p)), "tags": lambda p: ["reuse"]},
     "pmtm": {"impl": impl_pmtm, "model": model_pmtm, "oracle": oracle_pmtm, "post": post_pmtm, "rtol": 1e-6, "atol": 1e-12,
              "key": _key,
              "tags": lambda p: ["complex" if np.iscomplexobj(p["x"]) else "real", "method:" + p["method"],
@@ -146,6 +172,12 @@ KINDS = {
 
 
 def gen(rng, nrng, tier):
+    for i in range(6 if tier == "quick" else 60):
+        cplx = bool(i % 2)
+        N = int(nrng.integers(32, 100))
+        x, dk = gen_data(nrng, N, cplx, kind="noise")
+        changes = [[("NW", 4.0), ("k", 3)], [("k", 3), ("NW", 3.0), ("method", "eigen")], [("method", "unity"), ("k", 2)]][i % 3]
+        yield ("reuse", {"x": np.asarray(x), "NW": 2.5, "k": 4, "nfft": 2 * N, "method": ["adapt", "unity", "eigen"][i % 3], "changes": changes})
     n = 60 if tier == "quick" else 800
     methods = ["unity", "eigen", "adapt"]
     kinds = ["noise", "tone", "intdtype", "list", "dyn"]
